@@ -178,6 +178,13 @@ def g_exit1(c, hint=None):
     rc, out, err = c.run(["-", "-"], stdin=b"1")
     if rc != 1 or not err.startswith(b"xt error"):
         bad.append("`xt - -`: %r" % ((rc, err),))
+    # an unwritable standard error must not change how xt ends
+    for argv in (["missing.json"], ["bad.json"], ["--bogus"], ["small.json", "missing.json"]):
+        with open("/dev/full", "wb") as full:
+            p = subprocess.run([c.bin] + argv, stdout=subprocess.PIPE, stderr=full, cwd=c.dir, timeout=20)
+        want = 2 if argv == ["--bogus"] else 1
+        if p.returncode != want:
+            bad.append("`xt %s 2>/dev/full` must still exit %d, got status %d" % (" ".join(argv), want, p.returncode))
     return bad
 
 
@@ -189,6 +196,11 @@ def g_flush(c, hint=None):
         rc, out, err = c.run(argv, stdin=b'{"s":2}')
         if rc != 1 or not out.startswith(small):
             bad.append("`xt %s`: the finished input's output must be on stdout before exit 1 (exit %d, stdout %r)" % (" ".join(argv), rc, out[:40]))
+    for to in ("json", "yaml", "msgpack", "toml"):
+        one = c.run(["-t", to, "small.json"])[1]
+        rc, out, err = c.run(["-t", to, "small.json", "missing.json"])
+        if rc != 1 or out != one:
+            bad.append("`xt -t %s small.json missing.json`: the finished input's output (%d bytes) must be on stdout before exit 1, got %d bytes (exit %d)" % (to, len(one), len(out), rc))
     bigout = c.run(["big.json"])[1]
     rc, out, err = c.run(["big.json", "small.json", "missing.json"])
     if rc != 1 or out != bigout + small:
@@ -232,7 +244,7 @@ GROUPS = {
     "stdin_twice": g_resolution, "noargs": g_resolution, "open_stdin": g_resolution, "open_file": g_resolution, "open_err": g_exit1,
     "open_ok": g_resolution, "open_fallback": g_resolution, "dash": g_resolution,
     "usage": g_usage, "argv": g_usage, "exit_code": g_usage, "exit1": g_exit1, "names_input": g_exit1, "exit0": g_flush, "exit0_flush": g_flush,
-    "stdout": g_usage, "flush_order": g_flush, "flush_exit1": g_flush, "flush_return": g_flush, "wiring": g_pipe,
+    "stdout": g_usage, "flush_order": g_flush, "flush_chain": g_flush, "flush_exit1": g_flush, "flush_return": g_flush, "wiring": g_pipe,
 }
 
 
